@@ -13,6 +13,13 @@
 //!     report is handed to the history function (composition C27 ∘ C28).  The oracle works on the
 //!     raw probe latencies, and the history is run a second time with the probes of every run in
 //!     reverse order: any difference is an `order-dependent` violation.
+//!   `G <step> | <step> | …`  histories mixing full and incremental runs through the real
+//!     `Client::get_report` (its bookkeeping: `next_full`, `last_full`, `last`, `prev`), with
+//!     step = `<after_ms> <flags> <upd>;…` (or `-`), flags = `-` or letters of `m` (is_major),
+//!     `c` (the finished report has captive_portal = Some(true)), `u` (it has udp_v4 = true).
+//!     The finished report is injected right before the history function (hook); the client has
+//!     no relays and no probes, so the run takes no virtual time.  Output token per step:
+//!     `<preferred|none>,<history length>,<F|I>` (full / incremental run).
 //! output : one token per step: `<preferred|none>,<history length after the step>`
 //!          `bad-input` for anything unparsable.
 use std::collections::BTreeMap;
@@ -54,6 +61,8 @@ struct Step {
     upds: Vec<(Kind, u64, u64)>,
     /// probe mode: the address each probe report carries (None for https)
     addrs: Option<Vec<Option<SocketAddr>>>,
+    /// caller mode: is_major / captive portal / udp flags
+    flags: Option<(bool, bool, bool)>,
 }
 
 fn parse_addr(s: &str) -> Option<SocketAddr> {
@@ -114,13 +123,41 @@ fn parse_step(s: &str, probes: bool) -> Option<Step> {
             addrs.push(if want == 4 { Some(parse_addr(t[3])?) } else { None });
         }
     }
-    Some(Step { after_ms, upds, addrs: probes.then_some(addrs) })
+    Some(Step { after_ms, upds, addrs: probes.then_some(addrs), flags: None })
+}
+
+/// `<after_ms> <flags> <upd>;…`
+fn parse_step_caller(s: &str) -> Option<Step> {
+    let s = s.trim();
+    let (after, rest) = s.split_once(' ')?;
+    let rest = rest.trim();
+    let (flags, rest) = rest.split_once(' ')?;
+    let mut f = (false, false, false);
+    if flags != "-" {
+        if flags.is_empty() {
+            return None;
+        }
+        for ch in flags.chars() {
+            match ch {
+                'm' if !f.0 => f.0 = true,
+                'c' if !f.1 => f.1 = true,
+                'u' if !f.2 => f.2 = true,
+                _ => return None,
+            }
+        }
+    }
+    let mut st = parse_step(&format!("{after} {}", rest.trim()), false)?;
+    st.flags = Some(f);
+    Some(st)
 }
 
 fn parse(payload: &str) -> Option<Vec<Step>> {
     let p = payload.trim();
     if p.is_empty() {
         return None;
+    }
+    if let Some(rest) = p.strip_prefix("G ") {
+        return rest.split('|').map(parse_step_caller).collect();
     }
     if let Some(rest) = p.strip_prefix("P ") {
         return rest.split('|').map(|s| parse_step(s, true)).collect();
@@ -187,6 +224,156 @@ impl C28 {
             }
         });
         outs
+    }
+
+    /// Caller mode: the real `Client::get_report` around injected finished reports.
+    fn run_caller(&self, steps: &[Step]) -> Exec {
+        let mut outs: Vec<String> = Vec::new();
+        let mut violations: Vec<(String, String)> = Vec::new();
+        let mut tags: Vec<String> = Vec::new();
+        self.rt.block_on(async {
+            let mut hist = hooks::ReportHistory::new_without_probes();
+            let t0 = tokio::time::Instant::now();
+            // oracle bookkeeping, from the raw inputs only
+            let mut seen: BTreeMap<u64, BTreeMap<u64, u64>> = BTreeMap::new();
+            let mut now_ms: u64 = 0;
+            let mut last_full_ms: u64 = 0; // the client was created at t0
+            let mut first = true;
+            // previous run: (preferred, had udp, captive portal)
+            let mut last: Option<(Option<u64>, bool, bool)> = None;
+            for (si, st) in steps.iter().enumerate() {
+                let (is_major, captive, udp) = st.flags.expect("caller mode");
+                tokio::time::advance(Duration::from_millis(st.after_ms)).await;
+                now_ms += st.after_ms;
+                let mut r = build_report(st, false);
+                if captive {
+                    r.captive_portal = Some(true);
+                }
+                if udp {
+                    r.udp_v4 = true;
+                }
+                let full_before = hist.reports_full();
+                let res = hist.get_report(is_major, r).await;
+                assert_eq!(
+                    tokio::time::Instant::now().duration_since(t0),
+                    Duration::from_millis(now_ms),
+                    "get_report must not consume virtual time"
+                );
+                let was_full = hist.reports_full() - full_before == 1;
+                let got = res.preferred_relay.as_ref().map(url_index);
+                let n = hist.prev_len();
+                outs.push(format!(
+                    "{},{n},{}",
+                    got.map(|u| u.to_string()).unwrap_or_else(|| "none".into()),
+                    if was_full { "F" } else { "I" }
+                ));
+
+                // ---------------- oracle ----------------
+                // which runs are full: major change, the very first run, more than five minutes
+                // since the last full run, or the last report saw a captive portal and no UDP
+                let want_full = is_major
+                    || first
+                    || now_ms - last_full_ms > WINDOW_MS
+                    || matches!(last, Some((_, false, true)));
+                if was_full != want_full {
+                    violations.push((
+                        "full-bookkeeping".into(),
+                        format!("step {si}: run was full={was_full}, expected full={want_full}"),
+                    ));
+                }
+                if hist.reports_total() != si as u64 + 1 || hist.next_full() {
+                    violations.push(("full-bookkeeping".into(), format!("step {si}: counters")));
+                }
+                if want_full {
+                    last_full_ms = now_ms;
+                }
+                if hist.since_last_full() != Duration::from_millis(now_ms - last_full_ms) {
+                    violations.push((
+                        "full-bookkeeping".into(),
+                        format!("step {si}: last_full is {:?} ago", hist.since_last_full()),
+                    ));
+                }
+                first = false;
+                // the history the choice must be based on: every run of the last five minutes,
+                // full or not
+                let cur = lowest(&st.upds);
+                seen.retain(|t, _| now_ms - *t <= WINDOW_MS);
+                let window: Vec<BTreeMap<u64, u64>> =
+                    seen.values().cloned().chain([cur.clone()]).collect();
+                let best = |u: u64| -> Option<u64> {
+                    window.iter().filter_map(|m| m.get(&u).copied()).min()
+                };
+                seen.insert(now_ms, cur.clone());
+                let lost = if was_full { "history-lost-on-full-report" } else { "history-length" };
+                if n != seen.len() {
+                    violations.push((
+                        lost.into(),
+                        format!("step {si}: kept {n} reports, {} runs are within five minutes", seen.len()),
+                    ));
+                }
+                match got {
+                    None if !cur.is_empty() => {
+                        violations.push(("none-but-measured".into(), format!("step {si}")))
+                    }
+                    Some(c) if !cur.contains_key(&c) => {
+                        violations.push(("not-measured".into(), format!("step {si}: {c}")))
+                    }
+                    _ => {}
+                }
+                // the previous preferred relay as the history function sees it: a full run
+                // starts from scratch (`reports.last = None`), an incremental one continues
+                let prev: Option<u64> = if was_full { None } else { last.and_then(|l| l.0) };
+                if let Some(c) = got {
+                    let bc = best(c);
+                    if Some(c) != prev || !cur.contains_key(&c) {
+                        if let Some(v) = cur.keys().find(|v| best(**v) < bc) {
+                            violations.push((
+                                if was_full { "history-lost-on-full-report" } else { "not-best" }.into(),
+                                format!(
+                                    "step {si}: chose {c} (best {bc:?}) but {v} has {:?} within five minutes",
+                                    best(*v)
+                                ),
+                            ));
+                        }
+                    }
+                    if let Some(p) = prev
+                        && let Some(old) = cur.get(&p)
+                        && c != p
+                    {
+                        let b = bc.unwrap_or(u64::MAX) as u128;
+                        if 3 * b > 2 * (*old as u128) {
+                            violations.push((
+                                "sticky".into(),
+                                format!("step {si}: switched {p} -> {c}: best {b} ns > 2/3 of {old} ns"),
+                            ));
+                        }
+                    }
+                    // observation (not a violation of the core): a full run forgets the
+                    // previous preferred relay, so it may switch without hysteresis
+                    if was_full
+                        && let Some(Some(p)) = last.map(|l| l.0)
+                        && let Some(old) = cur.get(&p)
+                        && c != p
+                        && 3 * (bc.unwrap_or(u64::MAX) as u128) > 2 * (*old as u128)
+                    {
+                        tags.push("full-run-switched-without-hysteresis".into());
+                    }
+                    if was_full && window.len() > 1 && cur.keys().any(|v| best(*v) < cur.get(v).copied()) {
+                        tags.push("full-run-decided-by-history".into());
+                    }
+                }
+                last = Some((got, res.udp_v4 || res.udp_v6, res.captive_portal == Some(true)));
+                tags.push(if was_full { "full-run".into() } else { "incremental-run".into() });
+            }
+        });
+        let mut ex = Exec::new(outs.join(" "));
+        ex.violations = violations;
+        tags.sort();
+        tags.dedup();
+        ex.tags = tags;
+        ex.tags.push("caller-mode".into());
+        ex.nontrivial = steps.len() >= 2;
+        ex
     }
 
     fn run_history(&self, steps: &[Step]) -> Exec {
@@ -457,7 +644,18 @@ impl Prop for C28 {
             "P 0 h 3 30000000;6 3 90000000 6:1:1 | 1000 6 3 90000000 6:1:1;h 17 20000000;h 3 30000000",
             "P 0 4 3 50 4:1:1;4 3 40 4:1:2;4 3 60 6:1:1 | 10 - | 20 6 17 30 4:9:9;4 3 100 4:1:1",
             "P 0 h 3 10 | 300000 h 3 50;h 17 20 | 1 h 3 50;h 17 20",
+            // caller mode: a full run (major change) must still use the five-minute history
+            "G 0 u h 3 10;h 17 20 | 1000 mu h 3 50;h 17 20",
+            "G 0 u h 3 10;h 17 20 | 1000 u h 3 50;h 17 20 | 300001 u h 3 50;h 17 20",
+            "G 0 c h 3 10;h 17 20 | 1000 - h 3 50;h 17 20 | 10 cu h 3 50 | 10 - h 3 1",
+            "G 0 - h 3 30000000 | 1000 m h 3 30000000;h 17 25000000 | 1000 - h 3 30000000;h 17 25000000",
+            "G 300001 - -",
             // malformed
+            "G",
+            "G 0 h 3 5",
+            "G 0 x h 3 5",
+            "G 0 mm h 3 5",
+            "G 0 m",
             "P",
             "P 0 4 3 5",
             "P 0 h 3 5 4:1:1",
@@ -491,6 +689,34 @@ impl Prop for C28 {
             let steps = rng.range(1, max_steps);
             let nurls = rng.range(1, 4) as usize;
             let mut prev_lat = Vec::new();
+            if rng.chance(1, 3) {
+                // caller mode
+                let v: Vec<String> = (0..steps)
+                    .map(|_| {
+                        let after = match rng.below(8) {
+                            0 => 300_001,
+                            1 => 300_000,
+                            _ => gen_after(rng),
+                        };
+                        let mut flags = String::new();
+                        if rng.chance(1, 5) {
+                            flags.push('m');
+                        }
+                        if rng.chance(1, 4) {
+                            flags.push('c');
+                        }
+                        if rng.chance(1, 2) {
+                            flags.push('u');
+                        }
+                        if flags.is_empty() {
+                            flags.push('-');
+                        }
+                        format!("{after} {flags} {}", gen_report(rng, nurls, &mut prev_lat))
+                    })
+                    .collect();
+                out.push(format!("G {}", v.join(" | ")));
+                continue;
+            }
             let probe_mode = rng.chance(1, 2);
             let v: Vec<String> = (0..steps)
                 .map(|i| {
@@ -506,6 +732,7 @@ impl Prop for C28 {
 
     fn execute(&mut self, payload: &str) -> Exec {
         match parse(payload) {
+            Some(steps) if steps.iter().any(|s| s.flags.is_some()) => self.run_caller(&steps),
             Some(steps) => self.run_history(&steps),
             None => Exec::new("bad-input").tag("bad-input"),
         }
